@@ -539,7 +539,7 @@ impl PreprocessorParser {
         // an unknown macro and a use of a macro that is being expanded are refused, and nothing is emitted
         !has_key(old(context).macro_map@, l@) ==> r.is_err() && final(out).code@ == old(out).code@, //# C14,C13 macro.unknown_macro_is_refused
         has_key(old(context).macro_map@, l@) && has_elem(old(context).macro_nesting_counter@, l@)
-            ==> r.is_err() && final(out).code@ == old(out).code@, //# C14,C13 macro.recursive_use_is_refused
+            ==> r.is_err() && final(out).code@ == old(out).code@, //# C14,C13,C15 macro.recursive_use_is_refused
         // the source position is frozen at this use only if no enclosing use froze it already, and released again
         final(context).mapper.v_lock() == old(context).mapper.v_lock(), //# C16,C19 macro.freeze_and_release_are_balanced
         // whatever goes wrong with this use -- unknown macro, recursion, an expansion that is not valid code -- the diagnostic is raised at
@@ -548,7 +548,7 @@ impl PreprocessorParser {
         (r matches Err(_)) ==> (r matches Err(ParseError::UnrecognizedToken { .. })),
         old(context).mapper.v_lock() > 0 ==> final(context).mapper.v_last() == old(context).mapper.v_last(), //# C16 macro.an_enclosing_use_keeps_its_position
         // the set of macros under expansion is restored whatever the expansion ended with
-        final(context).macro_nesting_counter@ == old(context).macro_nesting_counter@, //# C19,C13 macro.expansion_set_is_restored
+        final(context).macro_nesting_counter@ == old(context).macro_nesting_counter@, //# C19,C13,C15 macro.expansion_set_is_restored
         final(context).macro_map@ == old(context).macro_map@,
         final(out).code@.len() >= old(out).code@.len(), final(out).code@.subrange(0, old(out).code@.len() as int) == old(out).code@,
 //@end
